@@ -202,11 +202,14 @@ def op4_subsets_bounded(seed, quick):
                     mtype = (2, 4, 1, 3)[rng.randint(4)] if kind.startswith("binary") else (2, 4)[rng.randint(2)]
                     M = _cast(_mat(rng, rng.randint(1, 9), rng.randint(1, 5), mtype > 2, 0.6), mtype)
                     kw = {}
+                    if k == 1 and rep % 2 == 1:
+                        M = M[:, :0]                     # a matrix with no columns: header and trailing record only
+                        kw = dict(nrow=M.shape[0])
                     if kind == "ascii-wide":
                         # wide headers on some matrices only, ordinary headers after them
                         w_ = (k in (0, 2)) if rep % 2 == 0 else (k == 1)
                         if w_:
-                            kw = dict(wide=True)
+                            kw = dict(kw, wide=True)
                             if k == 0 and rep % 2 == 0 and layout != "nonbigmat":
                                 kw["nrow"] = 10_000_000 + M.shape[0]      # a dimension that really needs the wide header
                                 M = (M, kw["nrow"])
